@@ -538,6 +538,57 @@ SHRINKING = ("std::string::String::from_utf8", "::unwrap", "::expect", "as std::
 EMPTY_NEW = ("std::vec::Vec::<T>::new", "std::string::String::new", "std::vec::Vec::<T>::with_capacity", "std::string::String::with_capacity")
 
 
+_shrinker_cache = {}
+
+
+LENGTH_PRESERVING = ("std::string::String::from_utf8", "::unwrap", "::expect", "std::ops::Deref>::deref", "::as_slice", "::as_str", "::as_bytes",
+                     "std::string::ToString>::to_string", "::to_vec", "std::clone::Clone>::clone", "::to_owned", "::into_bytes", "::as_ref", "as std::borrow::Borrow<")
+_ONLY_LENGTH_PRESERVING = [False]
+
+
+def derives_length_preserving(du, v, B):
+    """v is a view / conversion of the local B (a Vec<u8> / String) that has exactly B's length (from_utf8, ?, unwrap, clone, as_str ...)"""
+    _ONLY_LENGTH_PRESERVING[0] = True
+    try:
+        return _from_buffer(du, v, B) is not None
+    finally:
+        _ONLY_LENGTH_PRESERVING[0] = False
+
+
+def _is_shrinking(name):
+    if _ONLY_LENGTH_PRESERVING[0]:
+        return bool(name) and any(x in name for x in LENGTH_PRESERVING)
+    return _is_shrinking_(name)
+
+
+def _is_shrinking_(name):
+    """a conversion whose result is empty whenever its (first) argument is: the std views / trims listed above, or a function of the crate
+    with one parameter that only deletes from it (`s.replace("\r", "")`, `s.replace(|c| c.is_ascii_control(), "").trim().to_string()`)"""
+    if not name:
+        return False
+    if any(x in name for x in SHRINKING):
+        return True
+    if name in _shrinker_cache:
+        return _shrinker_cache[name]
+    from . import facts as _facts
+    F = _facts.CURRENT
+    g = F.fns.get(name) if F is not None else None
+    ok = False
+    if g is not None and g.crate == "rws" and g.kind in ("Fn", "AssocFn") and g.nargs == 1:
+        du = du_of(g)
+        ok = True
+        for _, t in g.calls():
+            cn = callee_name(t) or ""
+            if cn.endswith("impl str>::replace") and len(t["args"]) == 3:
+                rep = du.val_operand(t["args"][2])
+                if not (rep[0] == "const" and rep[1] == ""):
+                    ok = False
+            elif not any(x in cn for x in SHRINKING):
+                ok = False
+    _shrinker_cache[name] = ok
+    return ok
+
+
 def _path(proj):
     return tuple(e for e in proj if e != "*")
 
@@ -548,11 +599,11 @@ def _from_buffer(du, v, B, depth=0, blocks=None):
     Returns the list of blocks whose calls compute the chain (None when v does not derive from B)."""
     if blocks is None:
         blocks = []
-    if depth > 24:
+    if depth > 60:
         return None
     if v[0] in ("ref", "place"):
         return _derives(du, v[1][0], _path(v[1][1]), B, depth + 1, blocks)
-    if v[0] == "call" and v[1] and v[2] and any(x in v[1] for x in SHRINKING):
+    if v[0] == "call" and v[1] and v[2] and _is_shrinking(v[1]):
         blocks.append(v[3])
         return _from_buffer(du, v[2][0], B, depth + 1, blocks)
     return None
@@ -566,7 +617,7 @@ def _strip_payload(path):
 
 
 def _derives(du, l, path, B, depth, blocks):
-    if depth > 24:
+    if depth > 60:
         return None
     if l == B:
         return blocks if not path else None
@@ -598,7 +649,7 @@ def _derives(du, l, path, B, depth, blocks):
                 if _derives(du, src[0], _path(src[1]) + (("d", "Ok"), ("f", 0, "0")) + path, B, depth + 1, blocks) is None \
                         and _derives(du, src[0], _path(src[1]) + (("d", "Some"), ("f", 0, "0")) + path, B, depth + 1, blocks) is None:
                     return None
-            elif any(x in cn for x in SHRINKING):
+            elif _is_shrinking(cn):
                 if _strip_payload(path):
                     return None
                 blocks.append(d[1])
